@@ -794,5 +794,14 @@ func (c *Client) Do(ctx context.Context, q Query) (err error) {
 		}
 		return nil
 	})
-	return g.Wait()
+	if err := g.Wait(); err != nil {
+		if !c.IsClosed() {
+			// Connection is kept (e.g. on server exception), so next request
+			// should not be prepended by data that was encoded for this
+			// query, but was not flushed.
+			c.writer.Reset()
+		}
+		return err
+	}
+	return nil
 }
